@@ -230,7 +230,10 @@ class _Bin1d:
         else:
             x = c.ctx.fresh_int('bin1d')
             r = Arr((), lambda ix: x, 'int64')
-        r.ghost['bin1d'] = lambda i, k, j=None: [g for nm, g in cls.clauses(c, r, p, bins, tol, right_continuous, i, k, j, hints=False)]
+        # the clauses speak about the array as returned (callers may overwrite entries afterwards)
+        frozen = r.snapshot()
+        r.ghost['bin1d'] = lambda i, k, j=None: [g for nm, g in cls.clauses(c, frozen, p, bins, tol, right_continuous, i, k, j, hints=False)]
+        r.ghost['bin1d_result'] = frozen
         return r
 
 
